@@ -123,6 +123,40 @@ func checkAddSnapshot(p *Prog, r *Report) {
 			}
 		}
 	})
+	// the element may be built by a small helper that receives the collection
+	// and the resource: the snapshot rules then apply inside that helper
+	if hc, ok := elem.(*ssa.Call); ok && !allFresh {
+		if h := hc.Common().StaticCallee(); h != nil && h.Blocks != nil && smallHelper(h) {
+			ri, ai := -1, -1
+			for i, a := range hc.Common().Args {
+				if a == ssa.Value(recv) {
+					ri = i
+				}
+				if a == ssa.Value(arg) {
+					ai = i
+				}
+			}
+			var built ssa.Value
+			same := true
+			nret := 0
+			eachInstr(h, func(ins ssa.Instruction) {
+				if ret, ok := ins.(*ssa.Return); ok && len(ret.Results) == 1 {
+					nret++
+					if built == nil {
+						built = ret.Results[0]
+					} else if built != ret.Results[0] {
+						same = false
+					}
+				}
+			})
+			if ri >= 0 && ai >= 0 && ri < len(h.Params) && ai < len(h.Params) && same && nret > 0 {
+				if _, isA := built.(*ssa.Alloc); isA {
+					f, recv, arg, elem, allFresh = h, h.Params[ri], h.Params[ai], built, true
+					r.fn(funcName(h))
+				}
+			}
+		}
+	}
 	sr, isAlloc := elem.(*ssa.Alloc)
 	isAlloc = isAlloc && allFresh
 	r.decide(isAlloc && structName(elem.Type()) == "SoftResource", "C19.snapshot", "Add:fresh-element", p.pos(f.Pos()),
@@ -489,6 +523,23 @@ func checkFieldGuard(p *Prog, r *Report) {
 				}
 				if overFields && cmp && exitsOK {
 					good = true
+				}
+			}
+			if !good && fields != nil {
+				// or behind the negative answer of a membership helper that scans
+				// fields() completely for the new field's name
+				for _, ef := range expandFacts(factsAt(mu.Block())) {
+					hc, ok := ef.Cond.(*ssa.Call)
+					if !ok || ef.Truth {
+						continue
+					}
+					sum := existsPredicate(hc.Common().StaticCallee())
+					if sum == nil || sum.collField != "call:"+funcName(fields) || sum.elemField != "" || sum.nameParam >= len(hc.Common().Args) {
+						continue
+					}
+					if _, fl, ok := fieldLoad(hc.Common().Args[sum.nameParam]); ok && (fl == "Name" || fl == "FromName") {
+						good = true
+					}
 				}
 			}
 			r.decide(good, "C19.field-guard", name+":"+p.describe(mu), p.pos(mu.Pos()), "stored only after a complete scan of all field names found no equal name",
